@@ -22,7 +22,8 @@ for src in sorted(glob.glob(os.path.join(V, 'seeded', '_incoming', 'C*', 'change
         if os.path.exists(os.path.join(src, fn)):
             shutil.copy(os.path.join(src, fn), os.path.join(dst, fn))
     conf = logs.get(src, {})
-    p = subprocess.run([os.path.join(V, 'tools', 'try_patch.sh'), os.path.join(dst, 'patch.diff'), prop], stdout=subprocess.PIPE, stderr=subprocess.STDOUT, text=True)
+    p = subprocess.run([os.path.join(V, 'tools', 'try_patch.sh'), os.path.join(dst, 'patch.diff'), prop], stdout=subprocess.PIPE, stderr=subprocess.STDOUT, text=True,
+                       env=dict(os.environ, SEED_REPLAY_DIR='/var/tmp/seed_replays/%s' % sid))
     out = p.stdout
     viol = re.findall(r'VIOLATION property=(\S+) replay=(\S+)( no-failing-input-found)?', out)
     notes = open(os.path.join(dst, 'notes.txt')).read() if os.path.exists(os.path.join(dst, 'notes.txt')) else ''
